@@ -261,6 +261,12 @@ def matches_known(prop, case, known):
 # Main entry
 # ----------------------------------------------------------------------------------------------
 
+def driver_line(mod, case):
+    if hasattr(mod, "lines"):
+        return mod.lines(case)
+    return mod.line(case)
+
+
 def case_key(case):
     return hashlib.sha1(json.dumps(case, sort_keys=True).encode()).hexdigest()
 
@@ -352,14 +358,27 @@ def run_property(prop, tier, seed, replay=None):
             seen.add(k)
             ucases.append(c)
     results = eval_cases(modname, ucases)
-    lines = [mod.line(c) for c in ucases]
-    idx = [i for i, l in enumerate(lines) if l is not None]
+    multi = hasattr(mod, "lines")            # several driver lines per case, answers joined by " | "
+    if multi:
+        lines = [mod.lines(c) for c in ucases]
+        idx = [i for i, l in enumerate(lines) if l]
+    else:
+        lines = [mod.line(c) for c in ucases]
+        idx = [i for i, l in enumerate(lines) if l is not None]
     model_ans = [None] * len(ucases)
     if have_driver and idx:
         try:
-            outs = run_driver([lines[i] for i in idx])
-            for i, o in zip(idx, outs):
-                model_ans[i] = o
+            if multi:
+                flat = [l for i in idx for l in lines[i]]
+                outs = run_driver(flat)
+                pos = 0
+                for i in idx:
+                    model_ans[i] = " | ".join(outs[pos:pos + len(lines[i])])
+                    pos += len(lines[i])
+            else:
+                outs = run_driver([lines[i] for i in idx])
+                for i, o in zip(idx, outs):
+                    model_ans[i] = o
         except Exception as e:
             broken.append("driver run failed: %s" % e)
     compare = getattr(mod, "compare", lambda case, a, b: a == b)
@@ -413,12 +432,14 @@ def run_property(prop, tier, seed, replay=None):
         _worker_init(modname)
         a2, o2, _ = _worker_eval(small)
         try:
-            mans = run_driver([mod.line(small)])[0] if (have_driver and mod.line(small)) else mans
+            dl = driver_line(mod, small)
+            if have_driver and dl:
+                mans = " | ".join(run_driver(dl)) if isinstance(dl, list) else run_driver([dl])[0]
         except Exception:
             pass
         path = write_replay(prop, dict(property=prop, kind="failing-input", clause=o2 or why, case=small,
                                        original_case=c, impl_answer=a2, model_answer=mans,
-                                       driver_line=mod.line(small), seed=seed, tier=tier))
+                                       driver_line=driver_line(mod, small), seed=seed, tier=tier))
         violations.append(("failing-input", path, ""))
 
     if not oracle_fail and (corr_fail or broken):
@@ -445,13 +466,13 @@ def run_property(prop, tier, seed, replay=None):
             a2, o2, _ = _worker_eval(small)
             path = write_replay(prop, dict(property=prop, kind="failing-input", clause=o2 or found[1],
                                            case=small, original_case=found[0], impl_answer=a2,
-                                           broken=broken, driver_line=mod.line(small), seed=seed, tier=tier))
+                                           broken=broken, driver_line=driver_line(mod, small), seed=seed, tier=tier))
             violations.append(("failing-input", path, ""))
         else:
             payload = dict(property=prop, kind="no-failing-input-found", broken_obligations=broken,
                            seed=seed, tier=tier,
                            correspondence_mismatches=[dict(case=c, impl_answer=a, model_answer=m,
-                                                           driver_line=mod.line(c))
+                                                           driver_line=driver_line(mod, c))
                                                       for (c, a, m) in corr_fail[:5]],
                            search_effort=ctx.extra_coverage.get("search_cases", 0))
             if corr_fail:
